@@ -22,10 +22,13 @@ def run(chk):
         rows = vlib.replay(chk, c, bs, "lc")
         vlib.report_replay(chk, rows, "denotation")
     # (B3) the same behaviours on toy31723 (and a sample on toy79): TLC flattens the tree with its own transcription of the
-    # operators, checks the constant against Denote, and recomputes the verdict exactly
+    # operators, checks the constant against Denote, and judges the code's verdict ideally
     sub = behs if q else behs[:: max(1, len(behs) // 3000)]
-    vlib.toy_traces(chk, "toy31723", "lc", 0, vlib.flags(V=1, H=1), "denotation", progs=[dict(b) for b in sub], name="lc31723")
-    vlib.toy_traces(chk, "toy79", "lc", 0, vlib.flags(V=1, H=1), "denotation", progs=[dict(b) for b in sub[::3]], name="lc79")
+    # (the verdict is judged ideally - accepted iff the specification's reading of the recorded calls is satisfied by the assignment - over the
+    #  code's own verdict; that the verdict equals the unbatched relations on every input is C03's statement. A verdict that contradicts the
+    #  ideal one must repeat under fresh randomness to count: small-group luck does not)
+    vlib.toy_ideal(chk, "toy31723", [dict(b) for b in sub], "TraceIdealVerdict", "denotation", "lc31723", fl=vlib.flags(H=1))
+    vlib.toy_ideal(chk, "toy79", [dict(b) for b in sub[::3]], "TraceIdealVerdict", "denotation", "lc79", fl=vlib.flags(H=1))
     chk.finish(
         rule="TLC enumerates every expression tree of depth <= %d over variables of all kinds (committed, left, right, output, half-assigned), "
              "Variable::One, constants {0,1,-1,5}, LinearCombination::default, From<Variable>, a collected term list with repeated and zero-coefficient "
